@@ -103,11 +103,16 @@ func (g *srvGen) signer(kind int) glow.PrivateKey {
 
 func (g *srvGen) opAuthorize() {
 	r := g.r
+	if g.regDone && r.Chance(4) {
+		// a valid authorization for a brand-new device while the log cannot be written
+		g.s.AuthorizeFault(SignAuth(g.freshAuth(uint32(20+r.Intn(5)), detKey(g.seed, 300+r.Intn(5))), g.s.E.GCA.Priv))
+		return
+	}
 	var ea glow.EquipmentAuthorization
 	kind := r.pick([]int{30, 15, 20, 8, 12, 8, 7})
 	switch {
 	case kind == 0 || len(g.authsSeen) == 0: // new device
-		ea = SignAuth(g.freshAuth(uint32(1+r.Intn(4)), g.keys[r.Intn(len(g.keys))]), g.s.E.GCA.Priv)
+		ea = SignAuth(g.freshAuth(uint32(r.Intn(5)), g.keys[r.Intn(len(g.keys))]), g.s.E.GCA.Priv) // id 0 is a legal id
 	case kind == 1: // exact duplicate
 		ea = g.authsSeen[r.Intn(len(g.authsSeen))]
 	case kind == 2: // conflict differing in one field
@@ -327,7 +332,23 @@ func (g *srvGen) opDgram() {
 	case 13: // a datagram sent earlier (usually an accepted report) with one bit of id, timeslot, power or signature flipped
 		if len(g.sent) > 0 {
 			d = append([]byte(nil), g.sent[r.Intn(len(g.sent))]...)
-			if len(d) >= 80 {
+			if len(d) >= 80 && r.Chance(25) {
+				// the high-s twin of the signature: a different datagram for the same report, made without any key
+				var sig glow.Signature
+				copy(sig[:], d[16:80])
+				tw := Malleate(sig)
+				copy(d[16:80], tw[:])
+				if rep, err := glow.DeserializeReport(d[:80]); err == nil {
+					obs := "ok"
+					for _, dv := range g.devs {
+						if dv.id == rep.ShortID && glow.Verify(dv.key.Pub, rep.SigningBytes(), sig) && glow.Verify(dv.key.Pub, rep.SigningBytes(), tw) {
+							obs = "FAILED"
+						}
+					}
+					g.s.T.Count("crypto.twin")
+					g.s.T.Line("crypto.check what=high-s-twin-of-a-valid-signature-verifies => %s", obs)
+				}
+			} else if len(d) >= 80 {
 				var i int
 				switch r.Intn(4) {
 				case 0:
@@ -461,7 +482,13 @@ func (g *srvGen) opStats() {
 	r := g.r
 	off := uint64(g.off())
 	var tso uint64
-	switch r.pick([]int{20, 25, 20, 8, 10, 5, 4}) {
+	switch r.pick([]int{20, 25, 20, 8, 10, 5, 4, 10}) {
+	case 7: // misaligned, inside the archived range
+		if off > 0 {
+			tso = 2016*uint64(r.Intn(int(off/2016))) + uint64(1+r.Intn(2015))
+		} else {
+			tso = uint64(1 + r.Intn(2015))
+		}
 	case 0:
 		tso = off
 	case 1:
@@ -954,7 +981,7 @@ func runSrvScenario(focus string, seed uint64, size int, t *Trace) error {
 			if r.Chance(12) {
 				s.TCPShort(r.Bytes(r.Intn(4)))
 			} else {
-				id := uint32(1 + r.Intn(7))
+				id := uint32(r.Intn(8))
 				s.Sync(id)
 			}
 		case 7:
